@@ -54,21 +54,60 @@ func runDir() string {
 
 // wrRun: one connection through the real thermal-writer handleConn/writer; returns file contents in name order
 func wrRun(in wrInput, extraWrap []string) (files [][]byte, log string, ok bool) {
+	fs, log, ok := wrRunConns([]wrInput{in}, extraWrap)
+	if len(fs) > 0 {
+		files = fs[0]
+	}
+	return files, log, ok
+}
+
+// wrRunConns: one thermal-writer process serving the given connections one after the other (as the
+// daemon does when the camera reconnects, possibly as a different camera); returns, per connection, the
+// contents of the files that appeared while it was served, in name order
+func wrRunConns(ins []wrInput, extraWrap []string) (files [][][]byte, log string, ok bool) {
 	dir, _ := ioutil.TempDir(runDir(), "tw")
 	defer os.RemoveAll(dir)
 	out := filepath.Join(dir, "out")
 	os.Mkdir(out, 0755)
 	sock := filepath.Join(dir, "s")
-	d := startDriverWrapped(extraWrap, buildDir()+"/tw-driver", "serve", out+" "+sock+" 1", fmt.Sprintf("GOMAXPROCS=%d", in.GoMaxProcs))
+	d := startDriverWrapped(extraWrap, buildDir()+"/tw-driver", "serve", fmt.Sprintf("%s %s %d", out, sock, len(ins)), fmt.Sprintf("GOMAXPROCS=%d", ins[0].GoMaxProcs))
 	defer func() { d.in.Close(); d.cmd.Wait() }()
-	line, err := d.out.ReadString('\n')
-	if err != nil || !strings.Contains(line, "listening") {
-		return nil, "driver did not listen: " + line, false
+	seen := map[string]bool{}
+	ok = true
+	for _, in := range ins {
+		line, err := d.out.ReadString('\n')
+		if err != nil || !strings.Contains(line, "listening") {
+			return files, "driver did not listen: " + line, false
+		}
+		conn, err := net.Dial("unix", sock)
+		if err != nil {
+			return files, err.Error(), false
+		}
+		wrFeed(conn, in)
+		conn.Close()
+		line, err = d.out.ReadString('\n')
+		if err != nil {
+			return files, "driver died", false
+		}
+		log = line
+		ok = ok && strings.Contains(line, `"writer_done":true`)
+		names, _ := filepath.Glob(filepath.Join(out, "*"))
+		sort.Strings(names)
+		var mine [][]byte
+		for _, n := range names {
+			if seen[n] {
+				continue
+			}
+			seen[n] = true
+			b, _ := ioutil.ReadFile(n)
+			mine = append(mine, b)
+		}
+		files = append(files, mine)
 	}
-	conn, err := net.Dial("unix", sock)
-	if err != nil {
-		return nil, err.Error(), false
-	}
+	return files, log, ok
+}
+
+func wrFeed(conn net.Conn, in wrInput) {
 	hdr := fmt.Sprintf("ResX: %d\nResY: %d\nFrameSize: %d\nModel: %s\nBrand: %s\nFPS: %d\nCameraSerial: 5\nFirmware: 1.0.0\n\n", in.ResX, in.ResY, in.FrameSize, in.Model, in.Brand, in.FPS)
 	var stream bytes.Buffer
 	stream.WriteString(hdr)
@@ -109,18 +148,6 @@ func wrRun(in wrInput, extraWrap []string) (files [][]byte, log string, ok bool)
 			time.Sleep(200 * time.Microsecond)
 		}
 	}
-	conn.Close()
-	line, err = d.out.ReadString('\n')
-	if err != nil {
-		return nil, "driver died", false
-	}
-	names, _ := filepath.Glob(filepath.Join(out, "*"))
-	sort.Strings(names)
-	for _, n := range names {
-		b, _ := ioutil.ReadFile(n)
-		files = append(files, b)
-	}
-	return files, line, strings.Contains(line, `"writer_done":true`)
 }
 
 // Go-side parser of the CPTR format (used for the large runs that are not passed to Coq)
@@ -242,6 +269,19 @@ func wrGen(rng *rand.Rand, i int, small bool) wrInput {
 func init() {
 	runners["WRITER"] = func(rng *rand.Rand, n int, tier string, emit func(Case)) {
 		var rin wrInput
+		var rmulti struct {
+			Connections []wrInput `json:"connections"`
+			K           int       `json:"this_case_is_connection"`
+		}
+		if loadReplay(&rmulti) && len(rmulti.Connections) > 0 {
+			fs, _, _ := wrRunConns(rmulti.Connections, nil)
+			var files [][]byte
+			if rmulti.K < len(fs) {
+				files = fs[rmulti.K]
+			}
+			emit(Case{Coq: wrCoq(rmulti.Connections[rmulti.K], files), Input: rmulti, Impl: map[string]interface{}{"files": len(files)}, Key: "replay", Nontriv: true})
+			return
+		}
 		if loadReplay(&rin) {
 			files, _, _ := wrRun(rin, nil)
 			emit(Case{Coq: wrCoq(rin, files), Input: rin, Impl: map[string]interface{}{"files": len(files)}, Key: "replay", Nontriv: true})
@@ -249,6 +289,32 @@ func init() {
 		}
 		for i := 0; i < n; i++ {
 			in := wrGen(rng, i, true)
+			if i%3 == 2 {
+				// the camera reconnects to the SAME writer process, once as a camera with another frame
+				// size: each connection is one case, judged like a single one
+				ins := []wrInput{in, wrGen(rng, i, true), wrGen(rng, i, true)}
+				for k := range ins {
+					ins[k].GoMaxProcs = in.GoMaxProcs
+					if ins[k].Frames == 0 {
+						ins[k].Frames = 3
+					}
+				}
+				if ins[1].FrameSize == ins[0].FrameSize {
+					ins[1].FrameSize = ins[0].FrameSize + 3
+				}
+				ins[2].FrameSize = ins[0].FrameSize
+				fs, line, _ := wrRunConns(ins, nil)
+				for k := range ins {
+					var files [][]byte
+					if k < len(fs) {
+						files = fs[k]
+					}
+					emit(Case{Coq: wrCoq(ins[k], files), Input: map[string]interface{}{"connections": ins, "this_case_is_connection": k},
+						Impl: map[string]interface{}{"files": len(files), "driver": strings.TrimSpace(line)},
+						Tags: []string{fmt.Sprintf("connection-%d-of-process", k+1), fmt.Sprintf("framesize=%d", ins[k].FrameSize)}, Nontriv: true, Key: fmt.Sprint("reconn", k, ins[k].FrameSize, ins[k].Frames, ins[k].Seed)})
+				}
+				continue
+			}
 			files, line, done := wrRun(in, nil)
 			tags := []string{fmt.Sprintf("gomaxprocs=%d", in.GoMaxProcs), fmt.Sprintf("framesize=%d", in.FrameSize)}
 			if in.Frames > 256 {
